@@ -471,7 +471,8 @@ static void read_integer_value(fb_parser_t *P, fb_token_t *t, fb_value_t *v, int
         error_tok(P, t, "invalid integer format");
     }
     if (sign) {
-        v->i = -(int64_t)v->u;
+        /* Negate as unsigned: `-(int64_t)u` overflows for the magnitude 2^63 of INT64_MIN. */
+        v->i = (int64_t)(0 - v->u);
         v->type = vt_int;
 #ifdef FLATCC_FAIL_ON_INT_SIGN_OVERFLOW
         /* Sometimes we might want this, so don't fail by default. */
@@ -495,7 +496,8 @@ static void read_hex_value(fb_parser_t *P, fb_token_t *t, fb_value_t *v, int sig
         error_tok(P, t, "invalid hex integer format");
     }
     if (sign) {
-        v->i = -(int64_t)v->u;
+        /* Negate as unsigned: `-(int64_t)u` overflows for the magnitude 2^63 of INT64_MIN. */
+        v->i = (int64_t)(0 - v->u);
         v->type = vt_int;
 #ifdef FLATCC_FAIL_ON_INT_SIGN_OVERFLOW
         /* Sometimes we might want this, so don't fail by default. */
